@@ -85,6 +85,11 @@ func (p *c09) Gen(seed uint64, i int, tier string) (any, bool) {
 	case i%10 == 1:
 		sc.Base = "random"
 		sc.RandLen = r.Intn(3000)
+	case i%10 == 2 && i%20 == 2:
+		// containers nested deeply (forwarded forwards, a generator gone wrong): RandLen is the
+		// depth, the container types are drawn from the seed
+		sc.Base = "nested"
+		sc.RandLen = sim.Pick(r, []int{3, 8, 16, 24, 32, 48, 64, 100})
 	default:
 		sc.Base = "render"
 		o := ShapeOpts{MaxAlt: 2, MaxEmbed: 2, MaxAttach: 2, MaxContent: 150, CRLFOnly: true,
@@ -97,6 +102,31 @@ func (p *c09) Gen(seed uint64, i int, tier string) (any, bool) {
 		sc.Msg, sc.Other = &m, &m2
 	}
 	return sc, true
+}
+
+// nestedEML writes a legal message whose body is depth multipart containers inside each other
+// (alternative, related, mixed), each holding a small text part before and after the inner one.
+func nestedEML(r *sim.Rand, depth int) []byte {
+	var b strings.Builder
+	b.WriteString("Date: Wed, 01 Jan 2025 10:00:00 +0000\r\nFrom: <a@origin.example>\r\nTo: <b@dest.example>\r\nSubject: nested\r\nMIME-Version: 1.0\r\n")
+	kinds := make([]string, depth)
+	for d := range kinds {
+		kinds[d] = sim.Pick(r, []string{"alternative", "related", "alternative", "related", "mixed"})
+	}
+	if r.Chance(1, 2) {
+		for d := range kinds {
+			kinds[d] = sim.Pick(r, []string{"alternative", "related"})
+		}
+	}
+	for d := 0; d < depth; d++ {
+		fmt.Fprintf(&b, "Content-Type: multipart/%s; boundary=\"b%d\"\r\n\r\n", kinds[d], d)
+		fmt.Fprintf(&b, "--b%d\r\nContent-Type: text/plain; charset=UTF-8\r\nContent-Transfer-Encoding: 7bit\r\n\r\ntext at level %d\r\n--b%d\r\n", d, d, d)
+	}
+	b.WriteString("Content-Type: text/html; charset=UTF-8\r\nContent-Transfer-Encoding: quoted-printable\r\n\r\n<p>innermost</p>\r\n")
+	for d := depth - 1; d >= 0; d-- {
+		fmt.Fprintf(&b, "--b%d--\r\n", d)
+	}
+	return []byte(b.String())
 }
 
 // tokenOffsets lists offsets just after header-ish token characters.
@@ -366,6 +396,9 @@ func (p *c09) Exec(t *testing.T, scAny any) Outcome {
 			return out
 		}
 		base, other = b, b
+	case sc.Base == "nested":
+		base = nestedEML(sim.NewRand(sc.Seed), sc.RandLen)
+		other = base
 	default:
 		base = sim.NewRand(sc.Seed).Bytes(sc.RandLen)
 		other = base
@@ -480,7 +513,7 @@ func (p *c09) Shrink(scAny any) []any {
 
 func (p *c09) Info() PropInfo {
 	return PropInfo{
-		Rule:            "per stored message (80% renderings of generated messages incl. awkward file names, 10% fixtures of /repo/testdata, 10% random bytes) 250 (thorough: 300) seeded cases, each = 0..3 storage faults {truncate, torn write with a second message, lost range, duplicated range, zeroed block, byte flip, bit flip, CRLF->LF from an offset, emptied parameter value, inserted token, a prefix put in front of the message (byte-order mark whole or cut, mbox separator line, blank lines), header field value replaced by a degenerate one (empty groups, lone separators, half-finished parameters, ...)} at offsets biased (3:1) to positions next to ; = \" : - < > / , CR LF, read back through EMLToMsgFromReader with a reader of drawn chunking / (n>0, EOF) / error at an offset / (0,nil) runs, or through EMLToMsgFromString / EMLToMsgFromFile; evaluations = parses; distinct = distinct stored messages",
+		Rule:            "per stored message (75% renderings of generated messages incl. awkward file names, 10% fixtures of /repo/testdata, 10% random bytes, 5% legal messages of 3..100 multipart containers nested inside each other) 250 (thorough: 300) seeded cases, each = 0..3 storage faults {truncate, torn write with a second message, lost range, duplicated range, zeroed block, byte flip, bit flip, CRLF->LF from an offset, emptied parameter value, inserted token, a prefix put in front of the message (byte-order mark whole or cut, mbox separator line, blank lines), header field value replaced by a degenerate one (empty groups, lone separators, half-finished parameters, ...)} at offsets biased (3:1) to positions next to ; = \" : - < > / , CR LF, read back through EMLToMsgFromReader with a reader of drawn chunking / (n>0, EOF) / error at an offset / (0,nil) runs, or through EMLToMsgFromString / EMLToMsgFromFile; evaluations = parses; distinct = distinct stored messages",
 		Assumptions:     []string{"termination is judged by a 10 s wall-clock watchdog per parse of at most a few KiB, re-checked once before it is reported", "no statement about the value returned"},
 		Real:            []string{"go-mail eml.go (all three entry points) and the Msg setters it calls", "net/mail, mime, mime/multipart, mime/quotedprintable"},
 		Stubbed:         []string{"stored bytes (fault-injected)", "io.Reader (fault-injecting)", "corpus rendering runs on a virtual clock with seeded randomness"},
